@@ -136,7 +136,7 @@ theorem operands_ok (lib : Placed p B) (Γ : Gam) (env : Env) (F D : Nat) (l r :
     rw [hv2] at hv3
     have fr3 := fr2.keep k3
     have hvl3 : valOf p.w m3 F vl = a := by
-      rw [haway3 vl (hlocl.away (d := 3 * p.w) (by show 2 * p.w + p.w ≤ 3 * p.w ∨ _; omega) hroom (by omega))]; exact hvl2
+      rw [haway3 vl (hlocl.away (d := 3 * p.w) (by show 2 * p.w + p.w ≤ 3 * p.w ∨ _; omega) (Nat.le_of_eq hroom) (by omega))]; exact hvl2
     have hgo3 := getOp_ok (ck := ck) (B := B) (pc := pc + (c1 ++ c2 ++ c2').length) hw fr3 (cxOf p ck B).r0 vl
       (by show 2 * p.w ≤ 2 * p.w ∧ 2 * p.w + p.w ≤ 5 * p.w; omega)
       (hlocl.gettable (by show 2 * p.w + p.w ≤ 5 * p.w; omega)) (by rw [hg3]; exact hp3)
